@@ -719,6 +719,7 @@ func (cs *ConsensusState) receiveRoutine(maxSteps int) {
 func (cs *ConsensusState) handleMsg(mi msgInfo, rs RoundState) {
 	cs.mtx.Lock()
 	defer cs.mtx.Unlock()
+	defer verifTraceMsg(cs, mi)()
 
 	var err error
 	msg, peerKey := mi.Msg, mi.PeerKey
@@ -769,6 +770,7 @@ func (cs *ConsensusState) handleTimeout(ti timeoutInfo, rs RoundState) {
 	// the timeout will now cause a state transition
 	cs.mtx.Lock()
 	defer cs.mtx.Unlock()
+	defer verifTraceTimeout(cs, ti)()
 
 	switch ti.Step {
 	case RoundStepNewHeight:
